@@ -2102,10 +2102,29 @@ def external_modules(interp):
         return groups
     E['more_itertools'] = _mod('more_itertools', {
         'consecutive_groups': B('consecutive_groups', consecutive_groups)})
-    def read_excel(it, io=None, **kw):
+    def read_excel(it, io=None, skiprows=None, header=0, **kw):
+        # assumed contract of pandas.read_excel(io, skiprows, header=0): the
+        # first sheet row is the header; `skiprows` (None or a list of
+        # 0-based sheet row numbers) removes rows before parsing
         if not isinstance(io, DataFrameV):
             raise Unsupported('pandas.read_excel of a real file')
-        return io
+        if header != 0:
+            raise Unsupported('pandas.read_excel with header != 0')
+        if skiprows is None:
+            skip = set()
+        elif isinstance(skiprows, (list, tuple)) and all(
+                isinstance(k, int) and not isinstance(k, bool) for k in skiprows):
+            skip = set(skiprows)
+        else:
+            raise Unsupported('pandas.read_excel skiprows=%r' % (skiprows,))
+        if 0 in skip:
+            raise Unsupported('pandas.read_excel skipping the header row')
+        sheet = ([[OpaqueStr('comment')] * len(io.headers)]
+                 if getattr(io, 'comment_row', False) else []) + list(io.rows)
+        kept = [r for k, r in enumerate(sheet, start=1) if k not in skip]
+        out = DataFrameV([], kept)
+        out.headers = io.headers
+        return out
     E['pandas'] = _mod('pandas', {
         'read_excel': B('read_excel', read_excel),
         'isnull': B('isnull', lambda it, v: isinstance(v, NullCell)),
